@@ -244,6 +244,9 @@ def py_property(w, e, nnf, dnf):
 
 # ---------------------------------------------------------------------- the check
 def run(ctx):
+    # regenerate Gen/Gen_Walkers.v (walker dispatch tables) from $UP_REPO before the theorems are re-checked
+    from harness.ext._dispatch_common import prepare as _prepare_dispatch
+    _prepare_dispatch(ctx)
     from unified_planning.model.walkers import Dnf, Nnf
 
     ok_proofs = ctx.check_props(extra=["theories/Corr/Corr_C12.v"])
